@@ -73,14 +73,14 @@ func simProp(test string, q, t tierCfg) propCfg {
 var props = map[string]propCfg{}
 
 func init() {
-	q := tierCfg{Shards: 8, Checks: 1500}
+	q := tierCfg{Shards: 16, Checks: 2000}
 	t := tierCfg{Shards: 16, Checks: 40000}
 	for _, id := range []string{"C01", "C02", "C03", "C04", "C05", "C06", "C07", "C08", "C09", "C10", "C11", "C14", "C16", "C17", "C20"} {
 		pc := simProp("Test"+id, q, t)
 		pc.ExtraRun = "^TestReplay_" + id + "_" // scripted regressions (DESIGN Appendix B)
 		props[id] = pc
 	}
-	c15 := simProp("TestC15", tierCfg{Shards: 8, Checks: 1000}, tierCfg{Shards: 16, Checks: 25000})
+	c15 := simProp("TestC15", tierCfg{Shards: 16, Checks: 1000}, tierCfg{Shards: 16, Checks: 25000})
 	c15.Assumptions = append(append([]string{}, simAssumptions...),
 		"bounded liveness only: convergence is required within 60 x ElectionTick round-robin tick rounds of a fault-free suffix; all nodes share one ElectionTick/HeartbeatTick; election timeouts are re-drawn at every campaign (as raft does)",
 		"exempt (counted): a voter removed/demoted out of a two-voter set (README)")
@@ -96,7 +96,7 @@ func init() {
 			"the scripted cluster of driver L3 only emits messages a correct leader could have sent (leader completeness is enforced by the script)",
 			"VerifLog is a pure pass-through to raftLog"}}
 	props["C19"] = propCfg{Pkg: "./replay", Test: "TestC19", Level: "exploration",
-		Quick: tierCfg{Shards: 8, Checks: 400}, Thorough: tierCfg{Shards: 16, Checks: 20000},
+		Quick: tierCfg{Shards: 16, Checks: 300}, Thorough: tierCfg{Shards: 16, Checks: 20000},
 		Assumptions: []string{"the simulator itself is deterministic given its draws (no wall clock, no goroutines, sorted iteration everywhere in the harness); a harness nondeterminism would show up as a false alarm, never mask one",
 			"probabilistic detector: Go randomizes map iteration per range statement, so a map-order dependence flips with probability >= 1/2 per affected call; a dependence on something that does not vary between the runs (e.g. GOARCH) is invisible"}}
 	props["C13"] = propCfg{Pkg: "./pure", Test: "TestC13", ExtraRun: "^TestC13Closure$", Level: "exploration", Fuzz: []string{"FuzzC13"}, FuzzTime: "60s",
